@@ -1,9 +1,15 @@
 package main
 
 import (
+	"bytes"
 	"fmt"
 	"go/ast"
+	"go/format"
+	"go/parser"
+	"go/printer"
 	"go/token"
+	"os"
+	"path/filepath"
 	"strconv"
 	"strings"
 
@@ -197,6 +203,162 @@ func boolStr(b bool) string {
 	return "false"
 }
 
+// ---- statement-range extraction: the index-entry parser inside (*Cache).get --------------------------------
+//
+// The parser is not a function of its own in cache.go, so it is cut out and wrapped MECHANICALLY (DESIGN §10.6):
+//
+//  1. RANGE.  In the statement list of `get`: from the first `if` whose condition starts with `entry[0] != 'v'` (the
+//     header test) up to and including the last `if` statement that mentions `tm < 0` (the negative-timestamp test).
+//  2. RESULT.  The last statement of `get` must be `return Entry{A, B, time.Unix(0, C)}, nil`; the wrapper ends with
+//     `return A, B, C, "", true`.
+//  3. WRAPPER.  `func parseEntrySlice(entry []byte, id ActionID) (zero [HashSize]byte, zsize int64, ztm int64, why string, ok bool)`
+//     — entry and id are the block's free variables (any other free variable makes the translation fail: lost anchor);
+//     the result names are fresh so that the block's own `size, err :=` / `tm, err :=` declare what they declare in get.
+//  4. REWRITING.  Every `return` inside the range must be `return missing(E)` and becomes `return zero, 0, 0, R, false`
+//     where R is a string literal derived from E: `errors.New("lit")` gives "lit"; `fmt.Errorf("prefix: %v", …)` gives the
+//     format up to its first `%` without the trailing ": " ("prefix").  Anything else: lost anchor.
+//  5. CONTEXT.  `const HashSize`, `hexSize`, `entrySize` are printed from hash.go / cache.go, `type ActionID` from cache.go.
+//
+// The text is then translated by go2lean (preset "cacheparse") into GIV/Gen/CacheParseGo.lean.
+func cacheParseSource(g *fact.Gen, rel, relHash string, get *ast.FuncDecl) (string, string) {
+	if get == nil || get.Body == nil {
+		return "", "(*Cache).get not found"
+	}
+	list := get.Body.List
+	lo, hi := -1, -1
+	for i, st := range list {
+		is, ok := st.(*ast.IfStmt)
+		if !ok {
+			continue
+		}
+		if lo < 0 && strings.HasPrefix(g.Src(is.Cond), "entry[0]!='v'") {
+			lo = i
+		}
+		if lo >= 0 && strings.Contains(g.Src(is), "tm<0") {
+			hi = i
+		}
+	}
+	if lo < 0 || hi < lo {
+		return "", "get: the statements from the header test `entry[0] != 'v' …` to the `tm < 0` test were not found"
+	}
+	var res []string
+	if ret, ok := list[len(list)-1].(*ast.ReturnStmt); ok && len(ret.Results) == 2 && g.Src(ret.Results[1]) == "nil" {
+		if cl, ok := ret.Results[0].(*ast.CompositeLit); ok && g.Src(cl.Type) == "Entry" && len(cl.Elts) == 3 {
+			if call, ok := cl.Elts[2].(*ast.CallExpr); ok && g.Src(call.Fun) == "time.Unix" && len(call.Args) == 2 && g.Src(call.Args[0]) == "0" {
+				res = []string{g.Pretty(cl.Elts[0]), g.Pretty(cl.Elts[1]), g.Pretty(call.Args[1])}
+			}
+		}
+	}
+	if res == nil {
+		return "", "get does not end with `return Entry{A, B, time.Unix(0, C)}, nil`"
+	}
+	var b strings.Builder
+	b.WriteString("package cache\n\n")
+	for _, c := range [][2]string{{relHash, "HashSize"}, {rel, "hexSize"}, {rel, "entrySize"}} {
+		v := g.TopLevelValue(c[0], c[1])
+		if v == nil {
+			return "", "const " + c[1] + " not found"
+		}
+		fmt.Fprintf(&b, "const %s = %s\n", c[1], g.Pretty(v))
+	}
+	var actionID ast.Expr
+	if f := g.Parse(rel); f != nil {
+		for _, d := range f.Decls {
+			if gd, ok := d.(*ast.GenDecl); ok && gd.Tok == token.TYPE {
+				for _, sp := range gd.Specs {
+					if ts := sp.(*ast.TypeSpec); ts.Name.Name == "ActionID" {
+						actionID = ts.Type
+					}
+				}
+			}
+		}
+	}
+	if actionID == nil {
+		return "", "type ActionID not found"
+	}
+	fmt.Fprintf(&b, "\ntype ActionID %s\n\n", g.Pretty(actionID))
+	b.WriteString("func parseEntrySlice(entry []byte, id ActionID) (zero [HashSize]byte, zsize int64, ztm int64, why string, ok bool) {\n")
+	for _, st := range list[lo : hi+1] {
+		printer.Fprint(&b, g.Fset, st) // go/printer, line structure kept
+		b.WriteString("\n")
+	}
+	fmt.Fprintf(&b, "return %s, %s, %s, \"\", true\n}\n", res[0], res[1], res[2])
+	// re-parse the assembled text (a private copy of the statements) and rewrite its returns
+	fset := token.NewFileSet()
+	f, err := parser.ParseFile(fset, "parseEntrySlice.go", b.String(), 0)
+	if err != nil {
+		return "", "the assembled parser block does not parse: " + err.Error()
+	}
+	var fd *ast.FuncDecl
+	for _, d := range f.Decls {
+		if x, ok := d.(*ast.FuncDecl); ok {
+			fd = x
+		}
+	}
+	last := fd.Body.List[len(fd.Body.List)-1]
+	bad := ""
+	strip := func(n ast.Node) string {
+		var sb strings.Builder
+		printer.Fprint(&sb, fset, n)
+		return strings.Join(strings.Fields(sb.String()), "")
+	}
+	ast.Inspect(fd.Body, func(n ast.Node) bool {
+		if _, ok := n.(*ast.FuncLit); ok {
+			bad = "function literal in the parser block"
+			return false
+		}
+		ret, ok := n.(*ast.ReturnStmt)
+		if !ok || ret == last {
+			return true
+		}
+		reason, found := "", false
+		if len(ret.Results) == 1 {
+			if call, ok := ret.Results[0].(*ast.CallExpr); ok && strip(call.Fun) == "missing" && len(call.Args) == 1 {
+				if e, ok := call.Args[0].(*ast.CallExpr); ok && len(e.Args) >= 1 {
+					if lit, ok := fact.StringLit(e.Args[0]); ok {
+						switch strip(e.Fun) {
+						case "errors.New":
+							reason, found = lit, len(e.Args) == 1
+						case "fmt.Errorf":
+							if i := strings.IndexByte(lit, '%'); i >= 0 {
+								reason, found = strings.TrimSuffix(lit[:i], ": "), true
+							}
+						}
+					}
+				}
+			}
+		}
+		if !found {
+			if bad == "" {
+				bad = "a return of the parser block is not `return missing(errors.New(\"…\"))` / `return missing(fmt.Errorf(\"…: %v\", …))`: " + strip(ret)
+			}
+			return false
+		}
+		ret.Results = []ast.Expr{ast.NewIdent("zero"), &ast.BasicLit{Kind: token.INT, Value: "0"}, &ast.BasicLit{Kind: token.INT, Value: "0"},
+			&ast.BasicLit{Kind: token.STRING, Value: strconv.Quote(reason)}, ast.NewIdent("false")}
+		return false
+	})
+	if bad != "" {
+		return "", bad
+	}
+	var out bytes.Buffer
+	if err := format.Node(&out, fset, f); err != nil {
+		return "", "printing the rewritten parser block: " + err.Error()
+	}
+	return out.String(), ""
+}
+
+func genCacheParse(g *fact.Gen, rel, relHash string, get *ast.FuncDecl) {
+	src, why := cacheParseSource(g, rel, relHash, get)
+	root := os.Getenv("VERIF_ROOT")
+	if root == "" {
+		root = "/verif"
+	}
+	g.TranslateModuleSource("CacheParseGo", "file "+rel+": the statements of (*Cache).get from the header test to the `tm < 0` test, wrapped by harness/cmd/cache/fact.go (cacheParseSource)",
+		src, why, []string{"parseEntrySlice"}, "cacheparse", []string{"GIV.GoLib", "GIV.GoLibCache"}, "GIV.Go.CacheParse",
+		filepath.Join(root, "harness", "pinned", "CacheParseGo.lean"))
+}
+
 func genCache(g *fact.Gen) {
 	const rel = "cache/cache.go"
 	const relHash = "cache/hash.go"
@@ -230,6 +392,7 @@ func genCache(g *fact.Gen) {
 
 	// ---- get
 	get := g.Method(rel, "Cache", "get")
+	genCacheParse(g, rel, relHash, get)
 	c.def("bufLen", "get: `entry := make([]byte, entrySize+1)`", ": Nat", "(entrySize + 1)", func() (string, string) {
 		for _, mk := range findCalls(get, g, "make") {
 			if len(mk.Args) == 2 && src(mk.Args[0]) == "[]byte" {
